@@ -351,7 +351,7 @@ def f_nesting_bomb(rng, img, ctx):
     # reference bombs are rare on purpose: each DAG instance burns its whole CPU budget (twice: batch + isolation)
     shape = rng.weighted([("small_tuple", 180), ("tuple", 180), ("list", 180), ("dict", 180), ("set", 180),
                           ("ref_tuple", 180), ("long_digits", 180), ("code", 180), ("big_int", 120), ("ref_dag", 1),
-                          ("ref_chain", 5), ("ref_dag_plain", 120), ("ref_chain_plain", 60)])
+                          ("ref_chain", 5), ("ref_dag_plain", 120), ("ref_chain_plain", 60), ("text_number", 150)])
     # *_plain: the DAG / chain is just a value (a constant, a name, a code-object field) - nothing in the loader
     # hashes, prints or compares it, so the unchanged tree handles it instantly; it costs nothing to try often
     plain = shape.endswith("_plain")
@@ -405,6 +405,20 @@ def f_nesting_bomb(rng, img, ctx):
         bomb = b"\xa9\x01" * depth
     elif shape == "long_digits":
         bomb = b"l" + struct.pack("<i", rng.choice([(1 << 31) - 1, -(1 << 31), 1 << 20, 40000])) + b"\xff\x7f" * min(depth, 4000)
+    elif shape == "text_number":
+        # the text forms of floats / complex numbers of old marshal versions ('f' and 'x' with a 1-byte length,
+        # 'x' with a 4-byte length from 2.5 on): long digit runs ending in junk, exponents, dots, signs, inf/nan
+        k = rng.choice([20, 44, 60, 120, 250])
+        body = rng.choice([b"1" * k + b"x", b"1" * (k // 2) + b"." + b"1" * (k // 2 - 1) + b"z", b"9" * k,
+                           b"1e" + b"9" * (k - 2), b"." * k, b"-" * k, b"1" * (k - 4) + b"e+1x", b"nan", b"inf",
+                           b"1_" * (k // 2), b" " * (k - 1) + b"1", b"0x" + b"f" * (k - 2)])[:255]
+        form = rng.choice(["f", "x1", "x4"])
+        if form == "f":
+            bomb = b"f" + bytes([len(body)]) + body
+        elif form == "x1":
+            bomb = b"x" + bytes([len(body)]) + body + bytes([len(body)]) + body
+        else:
+            bomb = b"x" + struct.pack("<i", len(body)) + body + struct.pack("<i", len(body)) + body
     elif shape == "big_int":
         # a well-formed arbitrary-precision int of 15 000 .. 60 000 bits (> 4300 decimal digits: str() of it
         # raises ValueError on 3.11+ hosts), possibly negative, possibly flagged as a reference
